@@ -5,12 +5,14 @@
 package main
 
 import (
+	"context"
 	"encoding/json"
 	"flag"
 	"fmt"
 	"os"
 	"sync"
 
+	"github.com/golang/protobuf/proto"
 	"github.com/openconfig/gnmi/proto/gnmi"
 	"verif/harness/world"
 )
@@ -18,6 +20,8 @@ import (
 type Op struct {
 	Kind string            `json:"kind"` // set | rollback
 	Ch   map[string]string `json:"ch"`
+	Re   []string          `json:"re"`   // updated paths that the request also deletes (deletes take effect first)
+	Mode string            `json:"mode"` // how the request addresses its target: "" (in every path) | prefix | split
 }
 
 type Case struct {
@@ -39,6 +43,8 @@ type Line struct {
 	Get      map[string]string            `json:"get"`
 	GetJSON  map[string]string            `json:"getjson"`
 	Pat      map[string]map[string]string `json:"pat"`
+	Via      map[string]map[string]string `json:"via"`  // the whole tree, addressed in other ways
+	PatP     map[string]map[string]string `json:"patp"` // the patterns, split over prefix and path
 	Dev      map[string]string            `json:"dev"`
 	Doc      map[string]string            `json:"doc"`
 	HasDoc   bool                         `json:"hasdoc"`
@@ -46,6 +52,76 @@ type Line struct {
 	Chunks   []int                        `json:"chunks"`
 	Idle     bool                         `json:"idle"`
 	Err      string                       `json:"err"`
+}
+
+// flatten a GetResponse the way world.GetPath does
+func flatten(resp *gnmi.GetResponse) (map[string]string, error) {
+	out := map[string]string{}
+	for _, n := range resp.Notification {
+		for _, u := range n.Update {
+			if u.Val == nil {
+				continue
+			}
+			if j := u.Val.GetJsonVal(); j != nil {
+				leaves, err := world.FlattenJSON(j)
+				if err != nil {
+					return nil, err
+				}
+				for k, v := range leaves {
+					out[k] = v
+				}
+				continue
+			}
+			out[world.PathToStr(u.Path)] = world.TypedValueToStr(u.Val)
+		}
+	}
+	return out, nil
+}
+
+func getReq(w *world.World, req *gnmi.GetRequest) (map[string]string, error) {
+	resp, err := w.NBServer().Get(context.Background(), req)
+	if err != nil {
+		return nil, err
+	}
+	return flatten(resp)
+}
+
+// setRequest builds the request of an operation in the addressing mode it asks for
+func setRequest(op Op) *gnmi.SetRequest {
+	full := world.BuildSetRequest(map[string]map[string]string{"t1": op.Ch}, true)
+	for _, p := range op.Re {
+		gp := world.StrToPath(p)
+		gp.Target = "t1"
+		full.Delete = append(full.Delete, gp)
+	}
+	if op.Mode == "" {
+		return full
+	}
+	all := []*gnmi.Path{}
+	for _, u := range full.Update {
+		all = append(all, u.Path)
+	}
+	all = append(all, full.Delete...)
+	full.Prefix = &gnmi.Path{Target: "t1"}
+	for _, gp := range all {
+		gp.Target = ""
+	}
+	if op.Mode == "split" {
+		// the first element goes to the prefix if every operation shares it and has something left
+		common := true
+		for _, gp := range all {
+			if len(gp.Elem) < 2 || !proto.Equal(gp.Elem[0], all[0].Elem[0]) {
+				common = false
+			}
+		}
+		if common && len(all) > 0 {
+			full.Prefix.Elem = []*gnmi.PathElem{all[0].Elem[0]}
+			for _, gp := range all {
+				gp.Elem = gp.Elem[1:]
+			}
+		}
+	}
+	return full
 }
 
 func runCase(c Case) ([]Line, error) {
@@ -64,7 +140,7 @@ func runCase(c Case) ([]Line, error) {
 		return nil, err
 	}
 	out = append(out, Line{Case: c.Name, N: 0, Kind: "init", Ch: map[string]string{}, Get: map[string]string{}, GetJSON: map[string]string{},
-		Pat: map[string]map[string]string{}, Dev: map[string]string{}, Doc: map[string]string{}, Chunks: []int{}})
+		Pat: map[string]map[string]string{}, Via: map[string]map[string]string{}, PatP: map[string]map[string]string{}, Dev: map[string]string{}, Doc: map[string]string{}, Chunks: []int{}})
 	var reflected []int // indexes of the changes the configuration reflects (for rollback requests)
 	for i, op := range c.Ops {
 		hn := fmt.Sprintf("h%d", i+1)
@@ -74,7 +150,13 @@ func runCase(c Case) ([]Line, error) {
 		}
 		switch op.Kind {
 		case "set":
-			err = step(world.Step{K: "set", H: hn, Sync: true, Ch: map[string]map[string]string{"t1": op.Ch}})
+			if op.Mode == "" && len(op.Re) == 0 {
+				err = step(world.Step{K: "set", H: hn, Sync: true, Ch: map[string]map[string]string{"t1": op.Ch}})
+			} else {
+				if _, err = w.StartSetRaw(hn, setRequest(op), nil); err == nil {
+					err = w.Settle()
+				}
+			}
 		case "rollback":
 			idx := 0
 			if len(reflected) > 0 {
@@ -129,6 +211,46 @@ func runCase(c Case) ([]Line, error) {
 				m = map[string]string{}
 			}
 			l.Pat[p] = m
+		}
+		// the same reads, addressed differently: target in the prefix, nothing but the prefix, pattern split over both
+		l.Via, l.PatP = map[string]map[string]string{}, map[string]map[string]string{}
+		if m, verr := getReq(w, &gnmi.GetRequest{Prefix: &gnmi.Path{Target: "t1"}, Encoding: gnmi.Encoding_PROTO}); verr == nil {
+			l.Via["prefix-only"] = m
+		} else {
+			l.Err += " via prefix-only: " + verr.Error()
+		}
+		if m, verr := getReq(w, &gnmi.GetRequest{Prefix: &gnmi.Path{Target: "t1"}, Path: []*gnmi.Path{{}}, Encoding: gnmi.Encoding_PROTO}); verr == nil {
+			l.Via["prefix-root"] = m
+		} else {
+			l.Err += " via prefix-root: " + verr.Error()
+		}
+		for _, p := range c.Patterns {
+			gp := world.StrToPath(p)
+			if len(gp.Elem) < 2 {
+				continue
+			}
+			req := &gnmi.GetRequest{Prefix: &gnmi.Path{Target: "t1", Elem: gp.Elem[:1]}, Path: []*gnmi.Path{{Elem: gp.Elem[1:]}}, Encoding: gnmi.Encoding_PROTO}
+			if m, verr := getReq(w, req); verr == nil {
+				l.PatP[p] = m
+			} else {
+				l.Err += " patp " + p + ": " + verr.Error()
+			}
+		}
+		l.Dev, _ = w.Device("t1").Snapshot()
+		out = append(out, l)
+	}
+	// the device restarts empty and is connected again: what was applied is pushed again
+	if len(c.Ops) > 0 {
+		for _, st := range []world.Step{{K: "devrestart", T: "t1"}, {K: "connup", T: "t1", Conn: "c9"}, {K: "drain"}} {
+			if err := step(st); err != nil {
+				return out, err
+			}
+		}
+		last := w.Trace.Lines[len(w.Trace.Lines)-1]
+		l := Line{Case: c.Name, N: len(c.Ops) + 1, Kind: "resync", Ch: map[string]string{}, Idle: last.Quiet, Get: map[string]string{}, GetJSON: map[string]string{},
+			Pat: map[string]map[string]string{}, Via: map[string]map[string]string{}, PatP: map[string]map[string]string{}, Doc: map[string]string{}, Chunks: []int{}}
+		if cfg, ok := last.Cfgs["t1"]; ok {
+			l.TxState = cfg.State
 		}
 		l.Dev, _ = w.Device("t1").Snapshot()
 		out = append(out, l)
